@@ -3,5 +3,5 @@ CONSTANTS
   MaxLen = 4
   Exits = {0, 1, 3}
   Modes = {"normal", "try", "trypipe"}
-INVARIANT Agree
+INVARIANTS Agree Released
 CHECK_DEADLOCK FALSE
